@@ -405,14 +405,14 @@ func (p *c0405Pair) step(maxAdds int) bool {
 	for d := 0; d < 2; d++ {
 		d := d
 		if len(p.q[d]) > 0 {
-			add(5, func() { k, _ := p.deliver(d); p.stats["deliver_"+k]++ })
+			add(7, func() { k, _ := p.deliver(d); p.stats["deliver_"+k]++ })
 		}
 	}
 	for x := 0; x < 2; x++ {
 		x := x
 		ch := p.ch[x]
 		if p.adds[x] < maxAdds {
-			add(4, func() {
+			add(3, func() {
 				var a c0405Add
 				if p.last != nil && r.Intn(4) == 0 {
 					a = *p.last // exact duplicate (hash, amount, expiry)
@@ -438,7 +438,7 @@ func (p *c0405Pair) step(maxAdds int) bool {
 			})
 		}
 		if cand := p.settleable(x); len(cand) > 0 {
-			add(2, func() {
+			add(3, func() {
 				idx := cand[r.Intn(len(cand))]
 				k := c0405Pick(r, "settle", "settle", "fail")
 				if p.act(x, k, c0405Add{}, idx, 0) == "ok" {
@@ -457,7 +457,7 @@ func (p *c0405Pair) step(maxAdds int) bool {
 			})
 		}
 		if ch.OweCommitment() && !ch.commitChains.Remote.hasUnackedCommitment() {
-			add(5, func() {
+			add(8, func() {
 				if p.act(x, "sign", c0405Add{}, 0, 0) == "ok" {
 					p.stats["sign_ok"]++
 				} else {
@@ -466,7 +466,7 @@ func (p *c0405Pair) step(maxAdds int) bool {
 			})
 		}
 		if ch.commitChains.Local.hasUnackedCommitment() {
-			add(6, func() {
+			add(8, func() {
 				if p.act(x, "revoke", c0405Add{}, 0, 0) == "ok" {
 					p.stats["revoke_ok"]++
 				}
